@@ -564,6 +564,22 @@ func checkTypeOf(c *explore.Ctx, m *pgen.Msg, shape string) {
 		if tf.Repeated != wantRep {
 			c.Fail("TypeOf:repeated:"+shape, "TypeOf(%s) field %d Repeated=%v", m, i, tf.Repeated)
 		}
+		if f.Wrap == pgen.MapVal || f.Wrap == pgen.MapValPtr {
+			// keys and values: the kinds the protobuf_key / protobuf_val tags select
+			if tf.Type.Kind() != segproto.Map {
+				c.Fail("TypeOf:map-kind:"+shape, "TypeOf(%s) field %d is %q, want a map", m, i, tf.Type.Name())
+				continue
+			}
+			k := pgen.Elem{Kind: f.Key, Enc: f.KeyEnc}
+			if got, want := tf.Type.Key().Name(), expectedTypeName(k); got != want && f.Key != pgen.String && f.Key != pgen.Bool {
+				c.Fail("TypeOf:map-key:"+k.String(), "TypeOf(%s) field %d has keys of type %q, want %q", m, i, got, want)
+			}
+			if f.Elem.Kind != pgen.Message && f.Wrap == pgen.MapVal && f.Elem.Kind <= pgen.Float64 {
+				if got, want := tf.Type.Elem().Name(), expectedTypeName(f.Elem); got != want {
+					c.Fail("TypeOf:map-value:"+f.Elem.String(), "TypeOf(%s) field %d has values of type %q, want %q", m, i, got, want)
+				}
+			}
+		}
 		if f.Elem.Kind != pgen.Message && f.Wrap != pgen.MapVal && f.Wrap != pgen.MapValPtr {
 			want := expectedTypeName(f.Elem)
 			if (f.Elem.Enc == "fixed32" || f.Elem.Enc == "fixed64") && tf.Type.Name() == kindName[f.Elem.Kind] {
